@@ -215,9 +215,45 @@ func (wk *walk) dump(n ipld.Node, depth int) (uint64, []byte) {
 	panic("unexpected node type")
 }
 
+// preorder lists every node of the DAG, root first
+func preorder(ds ipld.DAGService, n ipld.Node, visit func(ipld.Node)) {
+	visit(n)
+	for _, l := range n.Links() {
+		c, err := l.GetNode(context.Background(), ds)
+		if err != nil {
+			panic("missing child: " + err.Error())
+		}
+		preorder(ds, c, visit)
+	}
+}
+
 func exec(c vh.Case, o *vh.Out) {
+	var lastRoot ipld.Node
+	var lastDS ipld.DAGService
 	for _, line := range c.Ops {
 		f := strings.Fields(line)
+		if f[0] == "blocks" && lastRoot != nil {
+			// the bytes of every block, pre-order; the CIDs the model was given must be the real ones
+			var blocks []string
+			i := 0
+			preorder(lastDS, lastRoot, func(n ipld.Node) {
+				blocks = append(blocks, vh.Hex(n.RawData()))
+				if i+1 >= len(f) || f[i+1] != vh.Hex(n.Cid().Bytes()) {
+					o.Fail("cid-table-mismatch", "node %d: CID given to the model differs from the CID of this run", i)
+				}
+				// a CID is the hash of the block bytes under the node's prefix: re-derive it
+				if c2, err := n.Cid().Prefix().Sum(n.RawData()); err != nil || !c2.Equals(n.Cid()) {
+					o.Fail("cid-not-hash-of-bytes", "node %d: CID is not prefix.Sum(RawData)", i)
+				}
+				i++
+			})
+			if i != len(f)-1 {
+				o.Fail("cid-table-mismatch", "%d nodes, %d CIDs given", i, len(f)-1)
+			}
+			o.Kind("blocks")
+			o.Emit("%s", strings.Join(blocks, ","))
+			continue
+		}
 		if f[0] != "imp" || len(f) < 9 {
 			o.Emit("bad-op")
 			continue
@@ -230,6 +266,7 @@ func exec(c vh.Case, o *vh.Out) {
 			o.Emit("error")
 			continue
 		}
+		lastRoot, lastDS = root, ds
 		wk := &walk{ds: ds, leafDepths: map[int]bool{}, sizesOK: true}
 		recSize, content := wk.dump(root, 0)
 		o.Kind(s.layout)
@@ -402,6 +439,16 @@ func gen(r *vh.Rand, tier string, n int, emit func(vh.Case)) {
 			op += " " + strings.Join(toks, " ")
 		}
 		c.Ops = append(c.Ops, op)
+		// byte-level tie: give the model the CID of every node (the hash is a parameter of the model)
+		if w <= 16 || nch <= 40 {
+			sp := parseSpec(strings.Fields(op))
+			ds := mdtest.Mock()
+			if root, err := sp.run(ds); err == nil {
+				var cids []string
+				preorder(ds, root, func(n ipld.Node) { cids = append(cids, vh.Hex(n.Cid().Bytes())) })
+				c.Ops = append(c.Ops, "blocks "+strings.Join(cids, " "))
+			}
+		}
 		emit(c)
 	}
 }
